@@ -14,9 +14,16 @@
 
 #include "galois/Galois.h"
 
+#include <fcntl.h>
 #include <pthread.h>
+#include <signal.h>
 #include <sstream>
 #include <thread>
+
+#if VERIF_ASAN
+#include <dlfcn.h>
+#include <sanitizer/common_interface_defs.h>
+#endif
 
 using namespace c14;
 
@@ -92,13 +99,154 @@ void cpuWatchdog(verif::Harness* H, pthread_t caseThread) {
     }
   }
 }
+
+// ------------------------------------------------------------------ fatal errors inside a case
+// A sanitizer report, a failed Galois assert or a fatal signal ends the process. To give such failures keys that
+// are as narrow and as stable as the oracle keys (C14:<component>:<class>-after-<operation kind>, independent of
+// the element type that happens to appear in a sanitizer message), stderr is captured in an unlinked temp file
+// and classified in-process; the violation is written by the harness itself and the process leaves with the
+// "violation already recorded" code 3, after which the driver restarts at the next case.
+int g_errFd = -1, g_realErr = -1;
+off_t g_caseErrOff = 0;
+
+std::string keyText(std::string t, size_t maxn = 60) {
+  std::string o;
+  for (char ch : t) {
+    if (isalnum((unsigned char)ch) || strchr("_!<>=().+*&|[]", ch))
+      o += ch;
+    else if (ch == ' ' || ch == '-' || ch == ':' || ch == ',')
+      o += (o.empty() || o.back() == '-') ? "" : "-";
+  }
+  while (!o.empty() && o.back() == '-')
+    o.pop_back();
+  return o.substr(0, maxn);
+}
+
+std::string classify(const std::string& txt, const char* fallback) {
+  size_t p, q;
+  if ((p = txt.find("Assertion `")) != std::string::npos && (q = txt.find("' failed", p)) != std::string::npos)
+    return "assert(" + keyText(txt.substr(p + 11, q - p - 11)) + ")";
+  if ((p = txt.find("terminate called after throwing an instance of '")) != std::string::npos) {
+    p += 48;
+    return "uncaught-" + keyText(txt.substr(p, txt.find('\'', p) - p));
+  }
+  if ((p = txt.find("ERROR: AddressSanitizer: ")) != std::string::npos) {
+    p += 25;
+    std::string d = txt.substr(p, txt.find_first_of(" \n", p) - p);
+    if (d == "SEGV")
+      return "signal-SIGSEGV";
+    if (d == "ABRT")
+      return "abort";
+    return "asan-" + keyText(d);
+  }
+  if ((p = txt.find("runtime error: ")) != std::string::npos) {
+    p += 15;
+    std::string d = txt.substr(p, txt.find('\n', p) - p);
+    for (const char* cut : {" of type", " for type", " address 0x", " 0x"})
+      if ((q = d.find(cut)) != std::string::npos)
+        d = d.substr(0, q);
+    for (char& ch : d)
+      if (isdigit((unsigned char)ch))
+        ch = 'N';
+    return "ubsan-" + keyText(d);
+  }
+  return fallback;
+}
+
+void fatalReport(const char* fallback) {
+  static std::atomic<bool> once{false};
+  if (once.exchange(true))
+    _exit(3);
+  std::string txt;
+  if (g_errFd >= 0) {
+    off_t end = lseek(g_errFd, 0, SEEK_END);
+    off_t from = std::max<off_t>(g_caseErrOff, end - 65536);
+    if (end > from) {
+      txt.resize((size_t)(end - from));
+      ssize_t n = pread(g_errFd, &txt[0], txt.size(), from);
+      txt.resize(n > 0 ? (size_t)n : 0);
+    }
+    if (g_realErr >= 0 && !txt.empty())
+      (void)!write(g_realErr, txt.data(), txt.size());
+  }
+  verif::Harness* H = verif::g_harness;
+  if (!H || H->curCase < 0)
+    return; // outside a case: let the process die the normal way (driver: harness failure)
+  Case* cc = g_curCase.load();
+  if (cc && cc->bad)
+    H->violation(cc->key, cc->detail); // the oracle had already caught it; the crash is its consequence
+  else {
+    char op[sizeof g_curOp];
+    memcpy(op, g_curOp, sizeof op);
+    op[sizeof op - 1] = 0;
+    std::string excerpt;
+    std::stringstream ss(txt);
+    std::string ln;
+    unsigned nl = 0;
+    while (std::getline(ss, ln) && nl < 24)
+      if (ln.find("DEBUG:") == std::string::npos && !ln.empty()) {
+        excerpt += ln.substr(0, 260) + "\n";
+        ++nl;
+      }
+    std::string cls = classify(txt, fallback);
+    H->violation(std::string("C14:") + g_curComponent.load() + ":" + cls + "-after-" + op,
+                 J().kv("kind", "fatal error inside the case").kv("class", cls).kv("operation", op)
+                     .kv("config", cc ? cc->cfg : "").kv("history", cc ? cc->history() : "").kv("stderr", excerpt).str());
+  }
+  H->line(J().kv("ev", "hang_exit").kv("case", H->curCase).str());
+  _exit(3);
+}
+
+void onDeath() { fatalReport("sanitizer-abort"); }
+void onSignal(int sig) {
+  fatalReport(sig == SIGSEGV ? "signal-SIGSEGV" : sig == SIGABRT ? "abort" : sig == SIGBUS ? "signal-SIGBUS"
+              : sig == SIGFPE ? "signal-SIGFPE" : "signal-SIGILL");
+  signal(sig, SIG_DFL);
+  raise(sig);
+}
+
+void installFatalHandlers() {
+  const char* keep = getenv("VERIF_C14_KEEP_STDERR");
+  if (!(keep && *keep == '1')) {
+    char path[] = "/var/tmp/c14-stderr-XXXXXX";
+    int fd      = mkstemp(path);
+    if (fd >= 0) {
+      unlink(path);
+      g_realErr = dup(2);
+      g_errFd   = fd;
+      dup2(fd, 2);
+    }
+  }
+#if VERIF_ASAN
+  __sanitizer_set_death_callback(onDeath); // ASan reports, asserts/aborts (handle_abort=1), SEGV
+  // gcc links libubsan as a second runtime with its own copy of sanitizer_common: register there as well
+  if (void* h = dlopen("libubsan.so.1", RTLD_LAZY | RTLD_NOLOAD))
+    if (auto f = (void (*)(void (*)()))dlsym(h, "__sanitizer_set_death_callback"))
+      f(onDeath);
+#else
+  static char altstack[1 << 16];
+  stack_t ss;
+  ss.ss_sp    = altstack;
+  ss.ss_size  = sizeof altstack;
+  ss.ss_flags = 0;
+  sigaltstack(&ss, nullptr);
+  struct sigaction sa;
+  memset(&sa, 0, sizeof sa);
+  sa.sa_handler = onSignal;
+  sa.sa_flags   = SA_ONSTACK | SA_NODEFER;
+  for (int sig : {SIGSEGV, SIGBUS, SIGFPE, SIGILL, SIGABRT})
+    sigaction(sig, &sa, nullptr);
+#endif
+}
 } // namespace
 
 int main(int argc, char** argv) {
   verif::Harness H("C14", argc, argv);
+  installFatalHandlers();
   galois::SharedMemSys G;
   galois::setActiveThreads(1); // the property is about single-threaded use
   std::thread watchdog(cpuWatchdog, &H, pthread_self());
+  uint64_t salt = (uint64_t)H.paramInt("salt", 0); // thorough tier: several processes with different sequences
 
   // --param comps=a,b,c restricts the components of this process
   std::vector<const Comp*> sched;
@@ -130,8 +278,10 @@ int main(int argc, char** argv) {
 
   for (long k = H.firstCase(); k < H.endCase(); ++k) {
     const Comp& cp = *sched[(size_t)k % sched.size()];
-    Case c(H, k, H.caseSeed(k));
+    Case c(H, k, salt ? verif::mix(H.caseSeed(k), salt) : H.caseSeed(k));
     g_reg.reset();
+    if (g_errFd >= 0)
+      g_caseErrOff = lseek(g_errFd, 0, SEEK_END);
     H.hangKey      = std::string("C14:") + cp.name + ":hang";
     g_curComponent.store(cp.name);
     g_curCase.store(&c);
